@@ -94,3 +94,33 @@ pub fn run<'a, C: CellType>(exec: &dyn Executable<C>, mode: Mode, input: Option<
         }
     }
 }
+
+/// Compile once more and render what the executor holds (bytecode listing; for the JIT also
+/// the machine code).  Used by the C13 re-compilation monitor: the rendering must depend only
+/// on (source, width, level), not on the per-instance seeds of std's hash maps.
+pub fn compiled_rendering<C: CellType>(backend: Backend, code: &str, level: u32) -> Option<String> {
+    match backend {
+        Backend::Bc => BcInterpreter::<C>::create(code, level).ok().map(|e| format!("{:?}", e.verif_bytecode())),
+        Backend::Ir => hpbf::ir::Program::<C>::parse(code).ok().map(|p| format!("{:?}", p.optimize(level))),
+        Backend::Jit => {
+            #[cfg(all(target_arch = "x86_64", target_family = "unix"))]
+            {
+                hpbf::exec::BaseJitCompiler::<C>::create(code, level).ok().map(|e| format!("{:?}\n{:02x?}", e.verif_bytecode(), e.print_mc(false, true)))
+            }
+            #[cfg(not(all(target_arch = "x86_64", target_family = "unix")))]
+            {
+                None
+            }
+        }
+        Backend::Inplace => None,
+    }
+}
+
+pub fn compiled_rendering_w(backend: Backend, code: &str, level: u32, width: u32) -> Option<String> {
+    match width {
+        8 => compiled_rendering::<u8>(backend, code, level),
+        16 => compiled_rendering::<u16>(backend, code, level),
+        32 => compiled_rendering::<u32>(backend, code, level),
+        _ => compiled_rendering::<u64>(backend, code, level),
+    }
+}
